@@ -136,6 +136,15 @@ Proof.
   - rewrite IH. split; intros H x; [intros [<-|Hx]; auto|intros Hx; auto].
 Qed.
 
+Lemma first_some_some {A B} (f : A -> option B) l y :
+  first_some f l = Some y -> exists x, In x l /\ f x = Some y.
+Proof.
+  induction l as [|a l IH]; cbn; [discriminate|].
+  destruct (f a) eqn:E.
+  - intros [= <-]. exists a; auto.
+  - intros H. destruct (IH H) as [x [Hx Hf]]. exists x; auto.
+Qed.
+
 Lemma find_some_in {A} (p : A -> bool) l x : find p l = Some x -> In x l /\ p x = true.
 Proof. apply find_some. Qed.
 
